@@ -158,19 +158,32 @@ def _fresh(unit: Unit, base: str) -> str:
 
 
 def rw_intro_alias(draw: Any, unit: Unit) -> Optional[str]:
-    cands = []
+    """An alias for an unnamed type: a field's whole type, the ELEMENT type of a field's array, or the element type of the array
+    an alias names (`type Row = uint4[4]` -> `type Cell = uint4; type Row = Cell[4]`)."""
+    cands: List[Tuple[Any, str]] = []
     for m in unit_messages(unit):
         for fl in m.fields():
             if isinstance(fl.type, (TBase, TArray)):
-                cands.append(fl)
+                cands.append((fl, "whole"))
+            if isinstance(fl.type, TArray) and isinstance(fl.type.elem, TBase):
+                cands.append((fl, "elem"))
+    for f in unit.files:
+        for it in f.items:
+            if isinstance(it, Alias) and isinstance(it.type, TArray) and isinstance(it.type.elem, TBase):
+                cands.append((it, "elem"))
     if not cands:
         return None
-    fl = draw(st.sampled_from(cands))
+    fl, how = draw(st.sampled_from(cands))
     f = file_of(fl)
-    a = Alias(_fresh(unit, "Zalias"), fl.type)
-    top = top_ancestor(fl)
-    f.items.insert(f.items.index(top), a)
-    fl.type = TRef(a.name, a)
+    top = fl if isinstance(fl, Alias) else top_ancestor(fl)
+    if how == "whole":
+        a = Alias(_fresh(unit, "Zalias"), fl.type)
+        f.items.insert(f.items.index(top), a)
+        fl.type = TRef(a.name, a)
+        return "intro_alias"
+    a = Alias(_fresh(unit, "Zelem"), fl.type.elem)
+    f.items.insert([k for k, x in enumerate(f.items) if x is top][0], a)
+    fl.type.elem = TRef(a.name, a)
     return "intro_alias"
 
 
@@ -183,6 +196,11 @@ def rw_inline_alias(draw: Any, unit: Unit) -> Optional[str]:
                 cands.append((fl, "field"))
             elif isinstance(t, TArray) and isinstance(t.elem, TRef) and isinstance(t.elem.target, Alias) and not isinstance(t.elem.target.type, TArray):
                 cands.append((fl, "elem"))
+    for f in unit.files:
+        for it in f.items:
+            t = getattr(it, "type", None)
+            if isinstance(it, Alias) and isinstance(t, TArray) and isinstance(t.elem, TRef) and isinstance(t.elem.target, Alias) and not isinstance(t.elem.target.type, TArray):
+                cands.append((it, "elem"))  # `type Row = Cell[4]` with `type Cell = uint4` -> `type Row = uint4[4]`
     if not cands:
         return None
     fl, how = draw(st.sampled_from(cands))
@@ -370,7 +388,7 @@ def draw_style(draw: Any) -> render_bp.Style:
     )
 
 
-def apply_sequence(draw: Any, unit: Unit, msgs: List[Message], max_steps: int = 5) -> Tuple[Unit, List[Message], List[str], Optional[render_bp.Style], Dict[str, int]]:
+def apply_sequence(draw: Any, unit: Unit, msgs: List[Message], max_steps: int = 5, only: Optional[List[Callable[[Any, Unit], Optional[str]]]] = None) -> Tuple[Unit, List[Message], List[str], Optional[render_bp.Style], Dict[str, int]]:
     """Applies a drawn sequence of rewrites to a deep copy; returns the new unit,
     the corresponding message list, the kinds applied, a style, and exclusion counts."""
     unit2, msgs2 = copy.deepcopy((unit, msgs))
@@ -378,7 +396,7 @@ def apply_sequence(draw: Any, unit: Unit, msgs: List[Message], max_steps: int = 
     excluded: Dict[str, int] = {}
     nsteps = draw(st.integers(1, max_steps))
     for _ in range(nsteps):
-        rw = draw(st.sampled_from(REWRITES))
+        rw = draw(st.sampled_from(only or REWRITES))
         trial, tmsgs = copy.deepcopy((unit2, msgs2))
         set_parents(trial)
         kind = rw(draw, trial)
